@@ -97,6 +97,18 @@ def build_schema(rng, fmt, redundant, neutral=True):
         sch.add(S.Const(name, v, txt))
         items.append({'role': 'constant', 'name': name, 'tree': t, 'value': v, 'text': txt})
         names.append((name, v))
+    if isar:
+        # plain negative literals (decimal and hex) as constant values, and a constant built on one
+        for nm, val, txt in (('KNEG', -rng.randint(1, 99), None), ('KNEGX', -rng.randint(16, 255), 'hex')):
+            text = '-0x%X' % -val if txt else '%d' % val
+            tree = E.Neg(E.Lit(-val, 16 if txt else 10))
+            sch.add(S.Const(nm, val, text))
+            items.append({'role': 'constant', 'name': nm, 'tree': tree, 'value': val, 'text': text})
+        base = items[-2]
+        add = rng.randint(100, 200)
+        tree = E.Bin('+', E.Name('KNEG', base['value']), E.Lit(add, 10))
+        sch.add(S.Const('KNEGP', base['value'] + add, 'KNEG + %d' % add))
+        items.append({'role': 'constant', 'name': 'KNEGP', 'tree': tree, 'value': base['value'] + add, 'text': 'KNEG + %d' % add})
     members = []
     used = set()
     for i in range(4):
